@@ -11,23 +11,37 @@
                     de (ir_of_rust U) T (ser S' t' x') = Some x.
    The forall-U / forall-route part is evaluated on generated universes by the
    check (compiled ORIGIN crate x compiled generated crates exchanging values);
-   what is proved: the value-level consequence of a sound wire-equivalence
-   checker ([C04_wire_compat_from_equiv_partial], soundness as a Section
-   hypothesis), and unconditional facts about the origin-side model: serde's
+   what is proved: the value-level consequence of a `true` verdict of C14's proven
+   wire-equivalence checker ([C04_wire_compat_from_equiv], unconditional), and unconditional facts about the origin-side model: serde's
    rename rules, unit variants, Option members, skip_serializing_if. *)
 From Coq Require Import String ZArith NArith QArith List Bool.
-From Typify Require Import Base.Json IR.TypeIR IR.Serde Algo.RustDefs Proofs.RustDefsProofs.
+From Typify Require Import Base.Json IR.TypeIR IR.Serde Algo.RustDefs Check.WireEquiv Proofs.RustDefsProofs.
 Import ListNotations.
 Close Scope Q_scope.
 Close Scope string_scope.
 Open Scope list_scope.
 Open Scope N_scope.
 
-(* ---- the two clauses of the property from a wire-equivalence verdict.
-   [same_wire T t T' t'] (equal acceptance and equal wire output for every JSON
-   instance and fuel) is what Check/WireEquiv.wire_equiv establishes when its
-   soundness theorem is available; it is a hypothesis here, hence _partial. *)
-Theorem C04_wire_compat_from_equiv_partial :
+(* ---- the two clauses of the property from a wire-equivalence verdict of C14's PROVEN
+   checker Check/WireEquiv.wire_equiv (soundness: Proofs/SettingsProofs.wire_equiv_sound_fuel).
+   Unconditional in the value quantifier: whenever the checker says true on (ir_of_rust U, the IR
+   typify produced), every value of the original type is accepted by the generated type with the
+   same wire form, and read back by the original as the same value. *)
+Theorem C04_wire_compat_from_equiv :
+  forall (re_match native_ok : ustring -> ustring -> bool)
+         (U : universe) (t : id) (T' : space) (t' : id),
+    wire_equiv (ir_of_rust U) t T' t' = true ->
+    forall fuel x j,
+      ser (ir_of_rust U) fuel t x = Some j ->
+      de re_match native_ok (ir_of_rust U) fuel t j = Some x ->
+      exists x', de re_match native_ok T' fuel t' j = Some x' /\
+                 exists j', ser T' fuel t' x' = Some j' /\
+                            de re_match native_ok (ir_of_rust U) fuel t j' = Some x.
+Proof. exact c04_wire_compat_from_equiv_lemma. Qed.
+
+(* the same consequence for ANY checker whose verdict implies [same_wire] (kept: it does not
+   depend on which checker is plugged in) *)
+Theorem C04_wire_compat_from_any_sound_checker :
   forall (re_match native_ok : ustring -> ustring -> bool)
          (chk : space -> id -> space -> id -> bool),
     (forall T t T' t', chk T t T' t' = true -> same_wire re_match native_ok T t T' t') ->
@@ -176,7 +190,14 @@ Example ex_enum_internal :
   ex_rt (s "E") (JObj [(s "kind", JStr (s "unit-var"))]) = Some (JObj [(s "kind", JStr (s "unit-var"))]).
 Proof. vm_compute. split; reflexivity. Qed.
 
-(* the hypothesis of C04_wire_compat_from_equiv_partial is satisfiable: the checker "same space, same id" *)
+(* the hypothesis of C04_wire_compat_from_equiv is satisfiable: the checker answers true on the model of
+   the example universe against an IR that differs in ids, names and member ORDER-irrelevant data
+   (here: against itself; the check evaluates it on the real typify dumps every run) *)
+Example ex_wire_equiv_true :
+  wire_equiv (ir_of_rust ex_U) (rust_id ex_U (s "E")) (ir_of_rust ex_U) (rust_id ex_U (s "E")) = true.
+Proof. vm_compute. reflexivity. Qed.
+
+(* the hypothesis of C04_wire_compat_from_any_sound_checker is satisfiable *)
 Example ex_same_wire_refl : forall T t, same_wire nore nore T t T t.
 Proof. intros T t fuel j. reflexivity. Qed.
 
